@@ -198,6 +198,35 @@ pub fn clicases(kind: &str, seed: u64, n: usize) -> Value {
                     "model": evs,
                 }));
             }
+            "c13" => {
+                let case = match crate::c13::gen_case(&mut rng, &corpus) {
+                    Some(c) => c,
+                    None => continue,
+                };
+                if case.input.is_empty() || has_bom(&case.input) || case.pattern.contains('\0') {
+                    continue;
+                }
+                if crate::oracle::build_matcher(&[case.pattern.clone()], &case.flags).is_err() {
+                    continue;
+                }
+                let orc = match Oracle::build(&[case.pattern.clone()], &case.flags) {
+                    Ok(o) => o,
+                    Err(_) => continue,
+                };
+                let lines = split_lines(&case.input, case.flags.term);
+                let (covered, nm, ambiguous) = crate::c13::covered_lines(&orc, &case.input, &lines);
+                if ambiguous {
+                    continue;
+                }
+                out.push(json!({
+                    "pattern": case.pattern,
+                    "args": case.flags.cli_args(),
+                    "input": esc(&case.input),
+                    "nlines": lines.len(),
+                    "matches": nm,
+                    "covered": covered.iter().enumerate().filter(|(_, &c)| c).map(|(i, _)| i + 1).collect::<Vec<_>>(),
+                }));
+            }
             _ => break,
         }
     }
